@@ -40,4 +40,7 @@ ImportsOk(files, designated) ==
                             /\ (n \in DOMAIN designated => F.imports[k].file = designated[n])
         /\ \A k \in 1..Len(F.imports) :        \* no import names a type its module does not define
               \E g \in 1..Len(files) : files[g].file = F.imports[k].file /\ F.imports[k].name \in ToSet(files[g].defs)
+        /\ \A k \in 1..Len(F.imports) :        \* a name the source designates as this crate's own type (crate:: / super:: / self:: path) is
+              LET n == F.imports[k].name IN     \* not imported from a same-named type of another crate
+              ~(n \in DOMAIN designated /\ designated[n] = F.file /\ n \in ToSet(F.defs))
 =============================================================================
